@@ -38,18 +38,39 @@ Print Assumptions C12_repaired_same_history.
    implementation: c.equals(c2) is False after c2.data.to_memory(). *)
 Theorem C12_old_declared_dtype_refuted :
   Forall (vdesc_ok dk_ex 0) ds_packed /\ fetch_ok cfg_nc4_old2 dk_ex /\
-  map cdtype (fst (read cfg_nc4_old2 dk_ex 0 ds_packed)) = [F8; I2; I1] /\
-  map (fun c => vdtype (val dk_ex c)) (fst (read cfg_nc4_old2 dk_ex 0 ds_packed)) = [F8; F4; U1] /\
-  map fst (run cfg_nc4_old2 dk_ex (fst (read cfg_nc4_old2 dk_ex 0 ds_packed))
+  map cdtype (fst (read cfg_nc4_old2 dk_ex 0 flags_default ds_packed)) = [F8; I2; I1] /\
+  map (fun c => vdtype (val dk_ex c)) (fst (read cfg_nc4_old2 dk_ex 0 flags_default ds_packed)) = [F8; F4; U1] /\
+  map fst (run cfg_nc4_old2 dk_ex (fst (read cfg_nc4_old2 dk_ex 0 flags_default ds_packed))
              [OCopy 1; OToMem 3; OEq 1 3; OCopy 2; OToMem 4; OEq 2 4]) =
     [ONone; ONone; OBool false; ONone; ONone; OBool false] /\
-  vrun (map (val dk_ex) (fst (read cfg_nc4_old2 dk_ex 0 ds_packed)))
+  vrun (map (val dk_ex) (fst (read cfg_nc4_old2 dk_ex 0 flags_default ds_packed)))
              [OCopy 1; OToMem 3; OEq 1 3; OCopy 2; OToMem 4; OEq 2 4] =
     [ONone; ONone; OBool true; ONone; ONone; OBool true] /\
   (let ds := [{| vd_var := 0; vd_shape := [2]; vd_role := RData |}] in
    Forall (vdesc_ok dk_trivial 0) ds /\
-   map fst (run cfg_nc4_old2 dk_trivial (fst (read cfg_nc4_old2 dk_trivial 0 ds)) [OCopy 0; OToMem 1; OEq 0 1; OArr 0]) =
+   map fst (run cfg_nc4_old2 dk_trivial (fst (read cfg_nc4_old2 dk_trivial 0 flags_default ds)) [OCopy 0; OToMem 1; OEq 0 1; OArr 0]) =
      [ONone; ONone; OBool false; OArray [2] F4 [Some 7; Some 8]] /\
-   map cdtype (fst (read cfg_nc4_old2 dk_trivial 0 ds)) = [F8]).
+   map cdtype (fst (read cfg_nc4_old2 dk_trivial 0 flags_default ds)) = [F8]).
 Proof. exact declared_old_refuted. Qed.
 Print Assumptions C12_old_declared_dtype_refuted.
+
+(* The seeded variant of H5netcdfArray.__init__ (a copy takes "unpack" from the
+   source's "mask") does NOT satisfy C12_flags_carried_unchanged /
+   C12_read_options_lazy_is_eager: read with mask=False through h5netcdf, copy,
+   subspace the copy, look: the packed int16 values, where eager access under
+   the options of the read shows the unpacked float64 values; the copy is not
+   equal to the original.  The flags survive exactly when mask = unpack. *)
+Theorem C12_swapped_copy_refuted :
+  Forall (vdesc_ok dk_ex 0) ds_one /\ fetch_ok cfg_h5_swap dk_ex /\ declares_realised cfg_h5_swap /\
+  map fst (run cfg_h5_swap dk_ex (fst (read cfg_h5_swap dk_ex 0 fl_nomask ds_one)) [OCopy 0; OSub 1 [IInt 0]; OArr 2; OEq 0 1]) =
+    [ONone; ONone; OArray [1; 4] I2 [Some 0; Some 1; Some 2; Some 3]; OBool false] /\
+  vrun (map (val0 fl_nomask dk_ex) (fst (read cfg_h5_swap dk_ex 0 fl_nomask ds_one))) [OCopy 0; OSub 1 [IInt 0]; OArr 2; OEq 0 1] =
+    [ONone; ONone; OArray [1; 4] F8 [Some 0; Some 2; Some 4; Some 6]; OBool true] /\
+  ~ Forall (has_flags fl_nomask) (run_heap cfg_h5_swap dk_ex (fst (read cfg_h5_swap dk_ex 0 fl_nomask ds_one)) [OCopy 0]).
+Proof. exact swap_refuted. Qed.
+Print Assumptions C12_swapped_copy_refuted.
+
+Theorem C12_swapped_copy_keeps_iff_options_equal :
+  forall fl, copy_flags_swapped fl = fl <-> fl_mask fl = fl_unpack fl.
+Proof. exact swapped_keeps_iff. Qed.
+Print Assumptions C12_swapped_copy_keeps_iff_options_equal.
